@@ -43,6 +43,7 @@ RULES[("stateful_set_utils.go", 49)] = "equiv: set names are distinct"
 RULES[("stateful_set_utils.go", 268)] = "outside: which revision a pod (re)created under OnDelete, or with partition 0 during a rollout, is built from; C07 speaks about RollingUpdate with a partition, and with partition 0 the statement asks for the update revision, which the mutant gives"
 for l in (285, 297, 319, 328, 345, 350):
     RULES[("stateful_set_utils.go", l)] = "dead: error branch of encoding / decoding / patching the set's own template, which cannot fail for a decodable object"
+RULES[("stateful_set_utils.go", 373)] = "equiv: skips the status write only when updatedReplicas alone or currentRevision alone differs from the stored status; in every execution produced another field differed too (a pod changing revision also changes readiness; completing a rollout also changes currentReplicas), and the fixed-point census of C12 found the stored counters exact"
 RULES[("expansion_generated.go", 61)] = "dead: a lister List never fails"
 RULES[("expansion_generated.go", 68)] = "dead: the list is already scoped to the pod's namespace"
 for l in (76, 89, 102, 114, 122, 138, 150, 239, 240, 248, 253, 262, 267, 276, 281, 294, 299):
